@@ -423,7 +423,7 @@ func c10Jobs(tier string) []string {
 // sockets are closed, every (network, transport, address, port) must be available again;
 // while a socket is bound and open, a second socket's bind to a conflicting tuple must fail.
 var c10SockKinds = []string{"udp4", "udp6dual", "tcp4", "tcp6dual"}
-var c10SockOpNames = []string{"bind(*:P)", "bind(A:P)", "bind(*:0)", "connect(v4 peer)", "connect(v6 peer)", "listen", "close"}
+var c10SockOpNames = []string{"bind(*:P)", "bind(A:P)", "bind(*:0)", "connect(v4 peer)", "connect(v6 peer)", "listen", "close", "bind(X:P) with X not a local address"}
 
 func c10Sock(kinds [2]int, seq []int) string {
 	w := NewWorld()
@@ -482,6 +482,12 @@ func c10Sock(kinds [2]int, seq []int) string {
 		case 6:
 			ep.Close()
 			closed[k] = true
+		case 7:
+			x := tcpip.Address("\x0a\x00\x00\x63")
+			if dual[k] {
+				x = tcpip.Address("\xfd\x00\x00\x00\x00\x00\x00\x00\x00\x00\x00\x00\x00\x00\x00\x63")
+			}
+			ep.Bind(tcpip.FullAddress{Addr: x, Port: P}, nil) // must fail and leave nothing behind
 		}
 		w.Settle()
 		for _, f := range w.InFlight() {
